@@ -105,8 +105,14 @@ def primitives(interp):
 
     @_b("requires")
     def requires(interp, cond):
-        if not interp.truth(cond):
+        # no fork: the side on which the precondition is false is discarded anyway, so its
+        # feasibility is never asked (a model with |octets| > 65535 costs the seq solver seconds)
+        v = interp.symtruth(cond)
+        if v is True:
+            return None
+        if v is False:
             raise PathInfeasible()
+        interp.ctx.assume(v.t, check=True)
         return None
     ns["requires"] = requires
 
